@@ -8,3 +8,8 @@ mod tree;
 
 pub use trace::Trace;
 pub use tree::{RegexTreeMap, UniqueRegexTreeMap};
+
+#[cfg(feature = "verif")]
+mod verif_hooks;
+#[cfg(feature = "verif")]
+pub use verif_hooks::VerifTree;
